@@ -38,6 +38,12 @@ def _cfg_cancel():
                 st.assume(z3.Or(ns == os_, z3.And(os_ == PENDING, ns == CANCELLED_AND_NOTIFIED)))
             st.assume(st.fstate(sid) != RUNNING)
     cfg.after_interfere = rely
+
+    def on_release(engine, st, owner):
+        # state of the future at the moment cancel() lets go of its lock (outermost release)
+        if not any(h[3] == "_me_lock" for h in st.held):
+            st.ghost["cancelled@release"] = st.cancelled(Val.id(owner.t))
+    cfg.release_hooks = {(c, "_me_lock"): on_release for c in FUTURE_CLASSES}
     cfg.contracts["more_executors._impl.common._Future._me_invoke_callbacks"] = RecordCall()
     cfg.contracts["more_executors._impl.throttle.ThrottleExecutor._do_cancel"] = RecordCall(ret_fn=fresh_bool)
     cfg.contracts["more_executors._impl.retry.RetryExecutor._cancel"] = RecordCall(ret_fn=fresh_bool)
@@ -70,6 +76,11 @@ def _post_cancel(cls_name):
         cl.append(("cancel() -> True means the future is (and by F1 stays) cancelled", "PC", z3.Implies(rb, st.cancelled(sid)), ["C02", "C06"]))
         cl.append(("cancel() on a future that finished normally returns False", "PC", z3.Implies(ctx["finished0"], z3.Not(rb)), ["C02", "C06"]))
         cl.append(("cancel() on an already cancelled future returns True", "PC", z3.Implies(ctx["cancelled0"], rb), ["C02"]))
+        car = st.ghost.get("cancelled@release")
+        if car is not None:
+            cl.append(("cancel() never answers False about a future that is cancelled when it lets go of the future's lock "
+                       "(e.g. cancelled by a callback re-entering while the underlying work was being cancelled)", "PC",
+                       z3.Implies(car, rb), ["C02", "C06"]))
         mine = [i for i, e in enumerate(st.trace) if e.kind == "resolve" and e.meth == "cancel" and z3.is_true(z3.simplify(e.recv == sid))]
         inv = [i for i, e in enumerate(st.trace) if e.kind == "repo-call" and e.meth.endswith("_me_invoke_callbacks")]
         notif = [i for i, e in enumerate(st.trace) if e.kind == "notify" and z3.is_true(z3.simplify(e.recv == sid))]
@@ -82,8 +93,10 @@ def _post_cancel(cls_name):
         dcalls = [e for e in st.trace if e.kind == "call" and e.meth == "cancel"]
         cl.append(("the cancel request is forwarded to the underlying future at most once", "PC", len(dcalls) <= 1, ["C06"]))
         if dcalls:
-            cl.append(("a False from the underlying future's cancel() vetoes the cancellation", "PC",
-                       z3.Implies(z3.Not(dcalls[0].ret), z3.Not(rb)) if dcalls[0].ret is not None else True, ["C06"]))
+            car2 = st.ghost.get("cancelled@release")
+            cl.append(("a False from the underlying future's cancel() vetoes the cancellation (unless the future got cancelled meanwhile "
+                       "by a re-entrant cancel: then the truthful answer is True)", "PC",
+                       z3.Implies(z3.Not(dcalls[0].ret), z3.Or(z3.Not(rb), car2 if car2 is not None else z3.BoolVal(False))) if dcalls[0].ret is not None else True, ["C06"]))
         seen_cancelled = any(a == "self.cancelled()" and b for a, b in st.decisions)
         if cls_name in ("MapFuture", "FlatMapFuture", "ProxyFuture") and not dcalls and not seen_cancelled:
             cl.append(("with no pending delegate to ask, a pending future cannot be cancelled (the work is already being delivered)", "PC",
